@@ -100,6 +100,19 @@ def pp():
 raw = G.raw
 
 
+def fw(tok: str) -> float:
+    """float of a wire token `m:e` (correctly rounded mantissa, exact scaling); astronomically large / small exponents
+    (the 192-bit model does not overflow where the float code does) become +-inf / 0"""
+    m, e = tok.split(":")
+    m, e = int(m), int(e)
+    if m == 0:
+        return 0.0
+    try:
+        return math.ldexp(float(m), e)
+    except OverflowError:
+        return math.copysign(math.inf, m)
+
+
 def wl(t):
     """wire tokens of a tensor (exact float64 values)"""
     return common.wire_list(t.detach().double().reshape(-1).tolist())
@@ -186,7 +199,7 @@ def build_solver(name):
     if name == "Cholesky":
         return S.Cholesky()
     if name == "CG":
-        return S.CG(tol=1e-10)
+        return S.CG(tol=1e-8)
     if name == "default":
         return None
     raise ValueError(name)
@@ -591,7 +604,7 @@ def check_case(ctx: Ctx, case, pending):
                     + (" " + data if data else ""))
 
             def cb_hcat(rep, Ji=Ji, i=i, cd=cd, tag=tag):
-                want = torch.tensor([float(x) for x in common.reply_nums(rep)], dtype=torch.float64).reshape(Ji.shape)
+                want = torch.tensor([fw(t_) for t_ in common.parse_reply(rep)[1]], dtype=torch.float64).reshape(Ji.shape)
                 if not torch.equal(want, Ji.double()):
                     bad = (want != Ji.double()).nonzero()[0].tolist()
                     ctx.disagree("hcat", cd, f"{tag}: flatten_row_jacobian of residual {i} differs from the model at {bad}")
@@ -680,7 +693,7 @@ def check_case(ctx: Ctx, case, pending):
                 if st != "ok":
                     ctx.disagree("gn", cd, f"{tag}: model raises ({toks}) where the implementation builds a system (weights {wtag})")
                     return
-                vals = torch.tensor([float(common.from_wire(t)) for t in toks[1:]], dtype=torch.float64)
+                vals = torch.tensor([fw(t) for t in toks[1:]], dtype=torch.float64)
                 if int(toks[0]) != m or vals.numel() != m * n + m:
                     ctx.disagree("gn", cd, f"{tag}: model system has {toks[0]} rows, implementation {m}")
                     return
@@ -705,6 +718,10 @@ def check_case(ctx: Ctx, case, pending):
                     ctx.fail(cd, f"lm-system: LM system has shape {list(A.shape)}; expected {[n, n]} ({tag})")
                     return False
                 prodf = prodf * (1.0 + lams[k_])
+                if float(sc_d.max()) * prodf > 1e-3 * float(torch.finfo(env.D).max) or not math.isfinite(prodf):
+                    ctx.count("degenerate.damping-overflow")     # the damped diagonal leaves the dtype's range
+                    K = k_
+                    break
                 Aref = ind["H"].clone()
                 Aref.diagonal().copy_(d0 * prodf)
                 scA = ind["aH"].clone()
@@ -718,17 +735,18 @@ def check_case(ctx: Ctx, case, pending):
                                  f"(weights {wtag}) ({tag})")
                     ok = False
                     break
+            lams = lams[:K]
             line = ("c07.lm " + hdr + f" {K} " + common.wire_list([lo, hi] + lams) + (" " + rdata if rdata else "")
                     + (" " + wdata if wdata else ""))
-            obsA = [s["A"].double() for s in env.sol_log]
-            obsb = [s["b"].double().reshape(-1) for s in env.sol_log]
+            obsA = [s["A"].double() for s in env.sol_log[:K]]
+            obsb = [s["b"].double().reshape(-1) for s in env.sol_log[:K]]
 
             def cb_lm(rep, obsA=obsA, obsb=obsb, ind=ind, cd=cd, tag=tag, n=n, K=K, eps=eps, lams=lams, sc_d=sc_d, wtag=wtag, fl=fl):
                 st, toks = common.parse_reply(rep)
                 if st != "ok":
                     ctx.disagree("lm", cd, f"{tag}: model raises ({toks}) where the implementation builds a system (weights {wtag})")
                     return
-                vals = torch.tensor([float(common.from_wire(t)) for t in toks], dtype=torch.float64)
+                vals = torch.tensor([fw(t) for t in toks], dtype=torch.float64)
                 if vals.numel() != n + K * n * n:
                     ctx.disagree("lm", cd, f"{tag}: model reply has {vals.numel()} numbers, expected {n + K * n * n}")
                     return
@@ -759,7 +777,7 @@ def check_case(ctx: Ctx, case, pending):
                 if "raised" in env.sol_log[k_]:
                     break
                 if not (torch.equal(st_["J"].double(), Jcat) and torch.equal(st_["R"].double().reshape(-1), Rcat)
-                        and torch.equal(st_["D"], env.sol_log[k_]["D"])):
+                        and torch.equal(torch.nan_to_num(st_["D"], nan=12345.0), torch.nan_to_num(env.sol_log[k_]["D"], nan=12345.0))):
                     ctx.fail(cd, f"update: strategy.update of trial {k_ + 1} does not receive cat(J'), D, cat(R') ({tag})")
                     ok = False
                     break
@@ -779,18 +797,19 @@ def check_case(ctx: Ctx, case, pending):
             lim = (2e5 if not f32 else 2e3) * eps * (nA * nA * float(D.norm()) + nA * float(b.norm())) + 1e-300
             sv = torch.linalg.svdvals(A) if A.numel() else torch.zeros(0)
             smax = float(sv.max()) if sv.numel() else 0.0
-            pos = sv[sv > 1e-13 * smax] if smax > 0 else sv
-            # usable only when the numerical rank is unambiguous: no singular value in the grey zone
-            well = smax > 0 and float(pos.min()) > (1e-5 if not f32 else 1e-2) * smax
+            pos = sv[sv > 1e-14 * smax] if smax > 0 else sv
+            # usable only when the numerical rank is unambiguous: every singular value is either (numerically) zero or
+            # well above the grey zone
+            well = smax > 0 and pos.numel() > 0 and float(pos.min()) > (1e-5 if not f32 else 1e-2) * smax
             if well and float(gres.abs().max()) > lim * max(1.0, (smax / float(pos.min())) ** 2):
                 ctx.fail(cd, f"solve: D returned by {case['solver']} does not satisfy the normal equations of (A, b): "
                              f"|Aᵀ(AD-b)| = {float(gres.abs().max()):.3e} > {lim:.3e} (trial {k_ + 1}) ({tag})")
                 ok = False
             uses_pinv = case["solver"] == "PINV" or (case["solver"] == "default" and env.default_solver == "PINV")
-            if well and uses_pinv and A.numel():
+            if well and uses_pinv and A.numel() and case["opt"] == "GN":
                 # minimum norm: D orthogonal to the null space of A
                 _, S_, Vh = torch.linalg.svd(A, full_matrices=True)
-                rk = int((S_ > 1e-13 * smax).sum())
+                rk = int((S_ > 1e-14 * smax).sum())
                 N0 = Vh[rk:]
                 floor_ = 1e4 * eps * float(b.norm()) / float(pos.min())
                 if N0.numel() and float((N0 @ D).abs().max()) > (1e-6 if not f32 else 1e-2) * float(D.norm()) + floor_ + 1e-300:
@@ -805,6 +824,9 @@ def check_case(ctx: Ctx, case, pending):
             Dk = (Dk.double() * sign).reshape(-1)
             if not bool(torch.isfinite(Dk).all()) or not all(bool(torch.isfinite(x_).all()) for x_ in p_before):
                 ctx.count("degenerate.nonfinite-step")
+                return
+            if float(Dk.abs().max()) > 1e4 if Dk.numel() else False:
+                ctx.count("degenerate.wild-step")     # |D| > 1e4: Exp overflows / loses all phase accuracy in floating point
                 return
             want_len = sum(n_ for n_, r in zip(numels, env.rg) if r)
             if Dk.numel() != want_len:
@@ -841,7 +863,7 @@ def check_case(ctx: Ctx, case, pending):
                 if st != "ok":
                     r = float("inf")
                 else:
-                    want = torch.tensor([float(common.from_wire(t)) for t in toks], dtype=torch.float64)
+                    want = torch.tensor([fw(t) for t in toks], dtype=torch.float64)
                     if want.numel() != got.numel():
                         r = float("inf")
                     else:
@@ -926,7 +948,7 @@ def run_wdiag(ctx: Ctx, pending, configs):
                 ctx.disagree("wdiag", case, f"usable weight on one side only: model {'ok' if m_ok else 'raises/unusable'}, implementation "
                                             f"{'ok' if i_ok else (type(impl).__name__ if isinstance(impl, Exception) else list(impl.shape))}")
                 return
-            vals = torch.tensor([float(common.from_wire(t)) for t in toks[2:]], dtype=torch.float64).reshape(tot, tot)
+            vals = torch.tensor([fw(t) for t in toks[2:]], dtype=torch.float64).reshape(tot, tot)
             if not torch.equal(vals, impl.double()):
                 ctx.disagree("wdiag", case, f"block-diagonal weight differs from the model ({tot}x{tot})")
         pending.append((line, cb))
